@@ -123,6 +123,31 @@ def gen_boundary(seed, tier):
                    "ops": [{"op": "fit", "rows": rows, "labels": None, "form": "unpacked-array", "bad_at": None},
                            {"op": "recluster", "iters": 1 + k % 2, "extra": 0.0, "shuffle": True, "seed": k,
                             "stop_early": False}]})
+    # a cluster of >= 256 members next to a mid-size, looser family; then a stricter threshold and a
+    # refinement of the single largest cluster: only that one may be taken apart
+    for k in range(1 if tier == "quick" else 4):
+        nf = 16
+        a = [1] * 8 + [0] * 8
+        big = []
+        for _ in range(rng.choice([262, 300, 340])):
+            r_ = list(a)
+            if rng.random() < 0.3:
+                r_[rng.randrange(8)] ^= 1
+            big.append(r_)
+        b = [0] * 8 + [1] * 8
+        mid = []
+        for _ in range(rng.choice([40, 90, 140])):
+            r_ = list(b)
+            for j in rng.sample(range(8, 16), rng.choice([0, 1, 2, 3])):
+                r_[j] = 0
+            mid.append(r_)
+        rows = big + mid
+        rng.shuffle(rows)
+        hs.append({"cfg": {"crit": "diameter", "tol": None, "thr": 0.3, "bf": rng.choice([5, 50])}, "nf": nf,
+                   "ops": [{"op": "fit", "rows": rows, "labels": None, "form": "unpacked-array", "bad_at": None},
+                           {"op": "setcfg", "crit": None, "tol": None, "thr": rng.choice([0.8, 0.9]), "bf": None},
+                           {"op": "refine", "n_largest": 1, "initial_mol": 0,
+                            "xform": rng.choice(["array", "path", "seq"])}]})
     return hs
 
 
@@ -230,6 +255,55 @@ def suite_exhaustive(seed, tier):
     return _run("exhaustive", hs, walk=True, shard=200)
 
 
+def gen_seq_refine(seed, n):
+    """histories in which refinement reads the fingerprints back from a SEQUENCE of .npy files (packed
+    or not) — the path on which the split members are re-read in sorted index order — in states
+    whose member lists are no longer increasing (after a re-clustering or an earlier refinement)"""
+    rng = random.Random(seed + 53)
+    hs = []
+    while len(hs) < n:
+        h = hist.gen_history(rng, max_ops=8, max_rows=rng.choice([8, 16, 30]), with_bad=False)
+        seen_mix, ok = False, False
+        for o in h["ops"]:
+            if o["op"] == "refine":
+                if rng.random() < 0.8:
+                    o["xform"] = rng.choice(["seq", "packed-seq"])
+                    ok = ok or seen_mix
+                seen_mix = True
+            elif o["op"] == "recluster":
+                seen_mix = True
+            elif o["op"] == "reset":
+                seen_mix = False
+        if ok:
+            hs.append(h)
+    return hs
+
+
+def suite_seq_refine(which):
+    """direct oracle `which` after every operation of the file-sequence refinement histories (no model
+    term: the sorted re-read order is modelled in Model/Multiround.refine_groups_seq, suites multiround-*)"""
+    def suite(seed, tier):
+        hs = gen_seq_refine(seed, 250 if tier == "quick" else 5000)
+        res = Result("seq-refine")
+        for h in hs:
+            try:
+                v = oracles_hist.run_with_oracle(h, which)
+            except Exception as e:
+                v = (-1, f"oracle could not run: {type(e).__name__}: {e}"[:300])
+            if v:
+                hh = dict(h)
+                if v[0] >= 0:
+                    hh["ops"] = h["ops"][:v[0] + 1]
+                res.bad.append({"suite": "seq-refine", "what": v[1], "history": hh, "after_op": v[0]})
+        res.cases = len(hs)
+        res.nontrivial = len(hs)
+        res.stats = {"histories": len(hs), "oracle": which}
+        res.samples = [{"cfg": hs[0]["cfg"], "ops": [o["op"] for o in hs[0]["ops"]]}]
+        return res
+    suite.__name__ = f"suite_seq_refine_{which}"
+    return suite
+
+
 # ---------------------------------------------------------------- search on break
 def search_hist(which):
     """search function for property `which` (a key of oracles_hist.ORACLES)"""
@@ -239,8 +313,8 @@ def search_hist(which):
             if isinstance(d, dict) and "history" in d:
                 cands.append(d["history"])
         cands += gen_exact_boundary(seed + 1, "thorough") + gen_merge_boundary(seed + 1, "thorough") \
-            + gen_switch(seed + 1, 150) + gen_refine_twice(seed + 1, 120)
-        cands += gen_boundary(seed + 1, "quick")[:2]
+            + gen_switch(seed + 1, 150) + gen_refine_twice(seed + 1, 120) + gen_seq_refine(seed + 1, 150)
+        cands += gen_boundary(seed + 1, "quick")
         cands += gen_histories(seed + 1, 150 if tier == "quick" else 1500, max_ops=10, max_rows=24)
         for h in cands:
             try:
